@@ -2,5 +2,5 @@ INIT Init
 NEXT Next
 CONSTANTS
   Depth = 3
-  NParam = 200
+  NParam = 80
   ParamDepth = 2
